@@ -99,6 +99,7 @@ Proof.
   - destruct G as (_ & EA & ES & EP & EF). unfold geom_of. rewrite EA, ES, EP, EF. reflexivity.
   - destruct G as (_ & EA & ES & EP & EF). unfold geom_of. rewrite EA, ES, EP, EF. reflexivity.
   - destruct G as (_ & EA & ES & EP & EF). unfold geom_of. rewrite EA, ES, EP, EF. reflexivity.
+  - destruct G as (_ & EA & ES & EP & EF). unfold geom_of. rewrite EA, ES, EP, EF. reflexivity.
 Qed.
 
 Theorem geometry_refusal_commutes : forall v o k, modes_ok Vx o ->
